@@ -1144,6 +1144,17 @@ def eval_comprehension(self, node):
 _NO_INITIAL = object()
 
 
+def _const_expr(x):
+    """an expression over literals and module-level names (type names, constants) with arithmetic only: no `self`, no calls"""
+    for n in ast.walk(x):
+        if isinstance(n, ast.Name):
+            if n.id == "self":
+                return False
+        elif not isinstance(n, (ast.Constant, ast.BinOp, ast.UnaryOp, ast.operator, ast.unaryop, ast.expr_context)):
+            return False
+    return True
+
+
 def _initial_field_value(self, obj, name):
     """A field the contract's OBJ declaration does not mention (typically one that a later change of the class introduced): if some
     __init__ in the MRO assigns `self.<name> = <empty container or literal>`, use that initial value; otherwise _NO_INITIAL."""
@@ -1168,14 +1179,14 @@ def _initial_field_value(self, obj, name):
                 return self.eval(val)
             if (isinstance(val, ast.Call) and isinstance(val.func, ast.Name)
                     and val.func.id in ("set", "dict", "list", "deque", "OrderedDict", "defaultdict", "Counter", "WeakValueDictionary")
-                    and all(isinstance(x, ast.Constant) or (isinstance(x, ast.Name) and x.id in ("int", "list", "set", "dict", "str", "bytes",
-                                                                                                 "float", "bool"))
-                            for x in list(val.args) + [k.value for k in val.keywords])):
+                    and all(_const_expr(x) for x in list(val.args) + [k.value for k in val.keywords])):
                 # an empty container (possibly with a default factory / maxlen): evaluate the constructor call in the module's scope
                 from .interp import Frame
                 self.frames.append(Frame(None, {}, f.module))
                 try:
                     return self.eval(val)
+                except (Unsupported, KeyError):
+                    return _NO_INITIAL
                 finally:
                     self.frames.pop()
             return _NO_INITIAL
